@@ -62,7 +62,12 @@ impl SourcePath {
                 let Some(name) = ancestor.file_name() else {
                     return Ok(absolute);
                 };
-                suffix = PathBuf::from(name).join(suffix);
+                // joining an empty suffix would leave a trailing separator in the identity
+                suffix = if suffix.as_os_str().is_empty() {
+                    PathBuf::from(name)
+                } else {
+                    PathBuf::from(name).join(suffix)
+                };
                 let Some(parent) = ancestor.parent() else {
                     return Ok(absolute);
                 };
